@@ -119,6 +119,15 @@ CHECKS = {
         note=TB + "C14 (partial): the model's rules are assumptions about JAX's tracing/lowering, re-validated by the enumeration only up to depth 3; two open known findings (grad inlines the sampler; unbatched plain vmap replicates).",
         technique="Lean 4 proof over a decision model + exhaustive bounded differential enumeration against real JAX",
         design="§3 C14"),
+    "C09": dict(
+        text="Partial. Lean theorems (any ordered field / dimension / force field): MH accept rule = detailed balance; leapfrog^n followed by a momentum "
+             "flip is an involution; rejection returns the input. Tie: one kernel step of mh / mala / hmc with scripted internal randomness "
+             "(noise, momentum, accept uniform) on scalar, array-valued, Vmap-, Scan- and Cond-addressed targets incl. the mixture-indicator move: "
+             "proposal, log acceptance ratio, accept decision, resulting trace, untouched unselected choices vs an independent JAX/scipy "
+             "implementation of the MH rule for the stated proposals; mh's proposal = seeded regenerate under the same key.",
+        note=TB + "C09 (partial): leapfrog volume preservation and the Gaussian proposal density formula are cited mathematics; invariance of the posterior follows from detailed balance given C03/C04 weights; statistical invariance tests are not part of the quick tier.",
+        technique="Lean 4 + Mathlib proof of the kernel cores + differential correspondence with scripted randomness",
+        design="§3 C09"),
 }
 
 NOT_YET = "check not built yet in this session (planned, see DESIGN.md §3/§6); not claimed"
